@@ -15,18 +15,28 @@ roll of a pass, the pass of a roll, the in-profile) have been read before, and o
 explicitly as None (= not supplied, for every hook the core does not test for presence).  The unit group on roll passes
 includes the pass velocity taken from the roll (neutral plane given as point / angle / not at all), with the relation to
 the roll's working velocity and the round trip over a fresh pass.
+Forms and histories (C16-8 / C16-9): every clause also on objects whose explicit values are supplied as CALLABLES (lambda, def,
+bound method, functools.partial, object with __call__, class, builtin; without parameter / taking the instance; `FORMS`) and
+on objects with a HISTORY - built from a template (the Roll handed to a pass, the profile handed on to a unit) that was created
+with other values, read, and edited before, or deep copies of objects that were read / whose copy was edited (`_tmpl`,
+`_apply_copy`).  The two places of hooks.py / the copy sites this rests on are translated too (driver/translate/c16_template.py:
+the calling convention of `Hook.__get__` for callable explicit values, the attribute sets `BaseRollPass.Roll.__init__` /
+`Unit.Profile.__init__` take over from the template); the interpreter runs callables, the template's history and the copy.
 """
+import copy
+import functools
 import itertools
 import math
+import operator
 import os
 import random
 import time
 
-from ..translate import gen, pyexpr
+from ..translate import gen, pyexpr, c16_template
 from .. import stub
 
 ID = "C16"
-LEAN_MODULES = ["PyrollProps.C16"]
+LEAN_MODULES = ["PyrollProps.C16", "PyrollProps.C16Template"]
 MODEL = "c16"
 MODEL_MODULES = ["PyrollModel.Gen.C16", "PyrollModel.MutualDriver"]
 
@@ -110,7 +120,12 @@ def translate(ctx):
         extra.append(f"def cls_{cname}_hooks : List String := [" + ", ".join(pyexpr.lean_str(h) for h in hooks) + "]")
     extra.append("def classes : List (String × List String × List String × List Impl) := [" + ", ".join(
         f"({pyexpr.lean_str(c)}, cls_{c}_mro, cls_{c}_hooks, cls_{c}_impls)" for c in CLASSES) + "]")
-    ctx.found = gen.emit_impl_module(ctx, ID, used, extra_text="\n".join(extra) + "\n")
+    # the two places of the hook system itself the property depends on: how `Hook.__get__` calls a callable explicit
+    # value, and which attribute sets of a template object the copy sites take over (driver/translate/c16_template.py)
+    text, gaps, found = c16_template.lean_text(gen.REPO)
+    ctx.tie_breaks += ["translator: " + g for g in gaps]
+    ctx.notes["hook_system"] = {k: list(v) if isinstance(v, (list, tuple)) else v for k, v in found.items()}
+    ctx.found = gen.emit_impl_module(ctx, ID, used, extra_text="\n".join(extra) + "\n" + text)
     ctx.tables = tables
 
 
@@ -143,7 +158,20 @@ RULE = ("every group (unit length/duration/velocity; roll radius/diameter; rotat
         "name anywhere below pyroll/core) and names the world itself supplies; the members must read what they read "
         "without it and every clause applies. Roll passes: unit group with the roll's neutral plane given as neutral "
         "point / neutral angle / not at all, relation velocity = roll.working_velocity * cos(roll.neutral_angle), "
-        "round trip of the derived pass velocity over a fresh pass to the roll's rotational frequency.")
+        "round trip of the derived pass velocity over a fresh pass to the roll's rotational frequency. "
+        "Forms: per world the supplied members are given as callables in 2 of the 15 forms (dealt round robin over the worlds; "
+        "thorough: 3 per repetition) - lambda / def / bound method / functools.partial of a python function and of a builtin / object with "
+        "__call__ / class / builtin bound method, without parameter or taking the instance -, and every float valued explicit "
+        "hook entry of the object and of its linked hook hosts (radius, neutral angle, pass velocity, gap, in-profile "
+        "velocity, ...) in one random form and in a form of its own each; all subsets x 1 order (all orders for pairs); the "
+        "members must read what they read with plain numbers. Histories: every template object the world's builder hands to a "
+        "copy site (the Roll of a pass, the profile handed on) is created with other explicit values (65 % of the final names "
+        "with another value, the rest missing, 35 % of the other group members / float hooks in addition, possibly one "
+        "provided by a hook function of an own subclass), a random 60 % selection of its hooks read, edited to the final "
+        "values, possibly read again (2 such histories + 1 read-only history per template kind and world); deep copies "
+        "(with the pass / sequence the object lives in) of the never-read object, of the object after reads, and the "
+        "original after its deep copy was re-supplied and read; the members must read what they read on the directly "
+        "built object and every clause applies.")
 ASSUMPTIONS = [
     "IEEE rounding: consistency and round trips are theorems over the reals; on floats they are checked with rtol 1e-9",
     "hook implementation bodies outside the translatable subset (length_from_roll_pass_positions, "
@@ -155,6 +183,13 @@ ASSUMPTIONS = [
     "a hook given explicitly as None counts as not supplied (Hook.__get__ skips it); no demand is made for names the core "
     "tests for presence (has_set / has_cached / has_set_or_cached): there a None is 'explicitly set' by the documented "
     "meaning of these tests (observed: Roll(nominal_radius=None, nominal_diameter=None) recurses to the recursion limit)",
+    "a callable explicit value is one of the harness's own 15 kinds (all with an inspect.signature of 0 or 1 parameters); "
+    "callables with defaults, *args, two or more parameters or returning None are outside the statement (observed: "
+    "lambda x=0.16: x is called with the instance; a callable returning None reads as None, not AttributeError)",
+    "objects with a history: the property is demanded of FRESH objects - the roll a pass builds from its template, the profile a "
+    "unit builds from the one handed on, deep copies of never-read / read-but-unedited objects; an object that was read and "
+    "THEN re-supplied keeps its stale cache until the core clears it (and so does its deep copy): no demand. copy.copy of a "
+    "hook host shares the __cache__ dictionary with the original (observed, not generated)",
     "presence (set / cached / computable) of quantities on linked objects is measured once per scenario, after a first read "
     "on the linked object if the scenario has one; the interpreter does not follow changes of a linked object's cache "
     "during the reads",
@@ -255,6 +290,280 @@ def _apply_side(obj, aux):
     elif aux["mode"] == "none":
         owner, last = _owner(obj, aux["name"])
         setattr(owner, last, None)                        # `Roll(..., working_velocity=None)`: in `__dict__`, holding None
+
+
+
+# --------------------------------------------------------------------------------------------------------------
+# forms of supplying a value
+# --------------------------------------------------------------------------------------------------------------
+# `Hook.__get__` accepts an explicit value in three forms: a plain value, a callable without parameter (called as `v()`), a
+# callable with a parameter (called as `v(instance)`).  "Supplied" in the property statement means supplied in ANY of them,
+# and a callable is whatever python calls one: a lambda, a `def` function, a bound method, a `functools.partial` (of a
+# python function or of a builtin), an object with `__call__`, a class, a builtin method.  A scenario may carry
+#   vals["@form"] = {"name": <key of FORMS | "mixed">, "scope": "members" | "all", "seed": n}
+# "members": the supplied members are given in that form; "all": every float valued explicit hook entry of the object under
+# test AND of the hook hosts linked to it (roll of a pass, pass of a roll, in-profile: the radius, the neutral angle, the pass
+# velocity, the in-profile's velocity, ...) is; "mixed": every entry in a form of its own (drawn from `seed`).
+class _Setpoint:
+    """a value object of some process control layer"""
+
+    def __init__(self, value):
+        self.value = value
+
+    def current(self):
+        return self.value
+
+    def current_for(self, host):
+        return self.value
+
+
+class _Callable0(_Setpoint):
+    def __call__(self):
+        return self.value
+
+
+class _Callable1(_Setpoint):
+    def __call__(self, host):
+        return self.value
+
+
+def _scaled(x, k):
+    return x * k
+
+
+def _value_for(x, host):
+    return x
+
+
+def _def0(v):
+    def supplied():
+        return v
+    return supplied
+
+
+def _def1(v):
+    def supplied(host):
+        return v
+    return supplied
+
+
+def _class0(v):
+    class Supplied(float):
+        def __new__(cls):
+            return float.__new__(cls, v)
+    return Supplied
+
+
+def _class1(v):
+    class Supplied(float):
+        def __new__(cls, host):
+            return float.__new__(cls, v)
+    return Supplied
+
+
+# name -> (number of parameters, maker(value, name of the hook))
+FORMS = {
+    "lambda: v": (0, lambda v, n: (lambda: v)),
+    "lambda host: v": (1, lambda v, n: (lambda host: v)),
+    "lambda host: value kept on the host": (1, lambda v, n: (lambda host: host.__dict__["_c16_forms"][n][1])),
+    "def f(): return v": (0, lambda v, n: _def0(v)),
+    "def f(host): return v": (1, lambda v, n: _def1(v)),
+    "bound method m()": (0, lambda v, n: _Setpoint(v).current),
+    "bound method m(host)": (1, lambda v, n: _Setpoint(v).current_for),
+    "functools.partial(f, v, 1.0) of a python function": (0, lambda v, n: functools.partial(_scaled, v, 1.0)),
+    "functools.partial(f, v) leaving the host parameter": (1, lambda v, n: functools.partial(_value_for, v)),
+    "functools.partial(operator.mul, v, 1.0) of a builtin": (0, lambda v, n: functools.partial(operator.mul, v, 1.0)),
+    "object with __call__()": (0, lambda v, n: _Callable0(v)),
+    "object with __call__(host)": (1, lambda v, n: _Callable1(v)),
+    "class C(float) with __new__(cls)": (0, lambda v, n: _class0(v)),
+    "class C(float) with __new__(cls, host)": (1, lambda v, n: _class1(v)),
+    "builtin bound method v.__float__": (0, lambda v, n: v.__float__),
+}
+
+
+def _is_hook(o, n):
+    from pyroll.core.hooks import Hook
+    return not n.startswith("_") and isinstance(getattr(type(o), n, None), Hook)
+
+
+def _form_targets(obj, form, sup):
+    from pyroll.core.hooks import HookHost
+    if form["scope"] == "members":
+        return [(obj, n) for n in sup]
+    hosts = [obj]
+    for link in ("roll", "roll_pass", "in_profile"):
+        r = _safe(lambda: getattr(obj, link))
+        if r[0] == "V" and isinstance(r[1], HookHost) and all(r[1] is not h for h in hosts):
+            hosts.append(r[1])
+    return [(o, n) for o in hosts for n in sorted(o.__dict__) if _is_hook(o, n)]
+
+
+def _apply_form(obj, form, sup):
+    """replace the numbers under the targeted explicit entries by callables; what each stands for is kept under
+    `_c16_forms` of its owner (a `_`-name: no copy site, no `__attrs__` looks at it)"""
+    if not form:
+        return
+    rng = random.Random(form.get("seed", 0))
+    names = sorted(FORMS)
+    form["assigned"] = assigned = {}          # (for the replay's reader; follows from name / seed)
+    for (o, n) in _form_targets(obj, form, sup):
+        v = o.__dict__.get(n)
+        if isinstance(v, bool) or not isinstance(v, (int, float)):
+            continue
+        name = form["name"] if form["name"] != "mixed" else rng.choice(names + ["number"])
+        if name == "number":
+            continue
+        arity, mk = FORMS[name]
+        assigned[("" if o is obj else type(o).__name__ + ".") + n] = name
+        o.__dict__.setdefault("_c16_forms", {})[n] = (arity, float(v), name)
+        o.__dict__[n] = mk(float(v), n)
+
+
+def _number(o, n):
+    """the number an explicit entry stands for (None when it is neither a number nor one of the harness's callables)"""
+    v = o.__dict__.get(n)
+    if isinstance(v, (int, float)) and not isinstance(v, bool):
+        return float(v)
+    f = o.__dict__.get("_c16_forms", {}).get(n)
+    return f[1] if f is not None and callable(v) else None
+
+
+# --------------------------------------------------------------------------------------------------------------
+# objects with a history: templates that were read and edited before they are handed on, copies
+# --------------------------------------------------------------------------------------------------------------
+# Fresh hook hosts are also built FROM other objects: the roll of a pass from the `Roll` handed to the pass
+# (`BaseRollPass.Roll(template, roll_pass)`), the in / out profile of a unit from the profile handed on (`Unit.Profile(unit,
+# template)`), a deep copy of a unit / roll / pass.  By the property they are fresh objects given the template's EXPLICIT values:
+# whatever was read on the template before (and thereby cached) or supplied earlier and replaced since must not show.  A
+# scenario may carry
+#   vals["@hist"] = {"site": "template", "seed": n, "names": [...], "alt": {name: number}, "mode": m}
+#       every template object the world's builder creates (`_tmpl`) goes through a history drawn from `seed`:
+#       m = "read-edit": created with OTHER explicit values (some of the final names with another value, some missing, some other
+#           names of `names` in addition), a random selection of `names` read, then edited to the final explicit values
+#           (deleted / re-supplied), optionally read again;  m = "read": created with the final values, then read; in both, one
+#           of the other names may be provided by a hook function of an own subclass the template is made an instance of; a
+#           profile may in addition pass through an upstream unit (`Transport(duration=1).solve(t)`) before it is handed on;
+#   vals["@hist"] = {"site": "deepcopy", "seed": n, "names": [...], "mode": m}
+#       the object under test is a `copy.deepcopy`: m = "fresh": of the never-read object; m = "read": of the object after
+#       a random selection of `names` was read (no edits: its cache holds what follows from its explicit values);
+#       m = "isolated": the object under test is the ORIGINAL, after a deep copy of it was re-supplied with other values and read
+#       (what happens to the copy must not reach the original).
+# The ops actually performed are written to vals["@hist"]["ops"] (for the replay's reader; they follow from the seed).
+_LAST_TMPL = {}
+
+
+def _hist_reads(rng, t, names, log, tag):
+    picked = [n for n in names if rng.random() < 0.6] or [rng.choice(names)]
+    rng.shuffle(picked)
+    out = []
+    for n in picked:
+        r = _safe(lambda: getattr(t, n))
+        out.append((n, r))
+        log.append(f"read {tag}.{n}" + ("" if r[0] == "V" else f" -> {type(r[1]).__name__}"))
+    return out
+
+
+def _tmpl(vals, factory, fixed, kw, what="Roll"):
+    """the template object a builder hands to a copy site: `factory(**fixed, **kw)`, or - in a template-history scenario -
+    an object that ends up with exactly these explicit values after a history of other values, reads and edits"""
+    h = (vals or {}).get("@hist")
+    if not h or h.get("site") != "template":
+        return factory(**fixed, **kw)
+    if h.get("probe") is not None:
+        t = factory(**fixed, **kw)
+        h["probe"].append((what, t, dict(kw)))
+        return t
+    rng = random.Random(h["seed"])
+    names = list(h["names"])
+    log = []
+    numeric = sorted(k for k, v in kw.items() if isinstance(v, (int, float)) and not isinstance(v, bool))
+    initial = {k: v for k, v in kw.items() if k not in numeric}
+    if h["mode"] == "read":
+        initial.update({k: kw[k] for k in numeric})
+    else:
+        for k in numeric:
+            if rng.random() < 0.65:
+                f = rng.uniform(1.15, 1.6)
+                initial[k] = kw[k] * (f if rng.random() < 0.5 else 1.0 / f)
+        for k in names:
+            if k not in kw and k in h["alt"] and rng.random() < 0.35:
+                initial[k] = h["alt"][k]
+    t = factory(**fixed, **initial)
+    log.append(f"t = {what}(" + ", ".join(f"{k}={v!r}" for k, v in sorted(initial.items())) + ")")
+    hooked = [k for k in names if k not in kw and k not in initial and k in h["alt"]]
+    if hooked and not h.get("model") and rng.random() < 0.5:
+        # ... and one quantity of the template is provided by a hook function of its (plugin) class: reading it caches a value
+        # that belongs to the TEMPLATE's class, not to the explicit values handed on
+        k = rng.choice(hooked)
+        t.__dict__["_c16_side_value"] = h["alt"][k]
+        t.__class__ = _side_class(type(t), k)
+        log.append(f"t.__class__ = a subclass of {type(t).__mro__[1].__name__} whose hook function provides {k}={h['alt'][k]!r}")
+    reads = _hist_reads(rng, t, names, log, "t")
+    ops = [("r", n) for (n, _) in reads]
+    if h["mode"] != "read":
+        for k in sorted(initial):
+            if k not in kw:
+                delattr(t, k)
+                log.append(f"del t.{k}")
+                ops.append(("d", k))
+        for k in sorted(kw):
+            if k in numeric or k not in initial:
+                setattr(t, k, kw[k])
+                log.append(f"t.{k} = {kw[k]!r}")
+                ops.append(("s", k))
+        if rng.random() < 0.5:
+            more = _hist_reads(rng, t, names, log, "t")
+            reads += more
+            ops += [("r", n) for (n, _) in more]
+    if h.get("via_solve") and what == "Profile.round":
+        # the profile reaches the unit through an upstream unit: `Unit.solve` hands on a profile built from the explicit values
+        # of its out profile, which was built from the explicit values of the incoming one
+        t = _core().Transport(duration=1.0, label="upstream").solve(t)
+        log.append("t = Transport(duration=1.0).solve(t)")
+    log.append("t is handed to the copy site")
+    h["ops"] = log
+    _LAST_TMPL.update(obj=t, what=what, initial={k: v for k, v in initial.items() if isinstance(v, (int, float))},
+                      initial_names=sorted(initial), ops=ops, reads=reads, final=dict(kw))
+    return t
+
+
+def _copy_of(obj, keep):
+    """deep copy of the object under test together with what it lives in: (copy, keep-alive list) or None"""
+    if not keep:
+        return copy.deepcopy(obj), []
+    k0 = keep[0]
+    if getattr(k0, "roll", None) is obj:
+        c = copy.deepcopy(k0)
+        return c.roll, [c]
+    units = _safe(lambda: list(k0.units))
+    if units[0] == "V" and any(u is obj for u in units[1]):
+        c = copy.deepcopy(k0)
+        return list(c.units)[[u is obj for u in units[1]].index(True)], [c]
+    return None
+
+
+def _apply_copy(obj, keep, h, vals, members):
+    """deep-copy scenarios (see above): -> (object under test, keep-alive list)"""
+    rng = random.Random(h["seed"])
+    log = []
+    if h["mode"] == "read":
+        _hist_reads(rng, obj, list(h["names"]), log, "o")
+    c = _copy_of(obj, keep)
+    if c is None:
+        raise RuntimeError("C16 harness: no deep copy defined for this world")
+    log.append("c = copy.deepcopy(o)  (with the sequence / pass it lives in)")
+    if h["mode"] in ("fresh", "read"):
+        h["ops"] = log + ["c is the object under test"]
+        return c[0], c[1] + [keep]
+    # "isolated": the copy is re-supplied with other values and read; the ORIGINAL is the object under test
+    for m in members:
+        if c[0].has_set(m) and _number(c[0], m) is not None:
+            f = rng.uniform(1.15, 1.6)
+            setattr(c[0], m, _number(c[0], m) * f)
+            log.append(f"c.{m} *= {f!r}")
+    _hist_reads(rng, c[0], list(h["names"]), log, "c")
+    h["ops"] = log + ["o is the object under test"]
+    return obj, keep + [c]
 
 
 def _given(o, name):
@@ -370,6 +679,10 @@ class World:
         """fresh object under test (+ keep-alive list); a side value `vals["@aux"]` (see `_apply_side`) is put on it"""
         obj, keep = self._build(sup, vals)
         _apply_side(obj, vals.get("@aux"))
+        _apply_form(obj, vals.get("@form"), sup)
+        h = vals.get("@hist")
+        if h and h.get("site") == "deepcopy":
+            obj, keep = _apply_copy(obj, keep, h, vals, self.members)
         return obj, keep
 
     def known(self, twin, aux=None):
@@ -418,7 +731,8 @@ def _worlds():
             t = cls(**sup)
             if inprof != "none":
                 kw = {"velocity": vals["velocity"]} if inprof == "vel" else {}
-                t.in_profile = cls.InProfile(t, pc.Profile.round(radius=0.01, **kw))
+                # (the profile handed on is a TEMPLATE: `Unit.Profile.__init__` takes over its explicit values)
+                t.in_profile = cls.InProfile(t, _tmpl(vals, pc.Profile.round, {"radius": 0.01}, kw, "Profile.round"))
             g = _groove(pc)
 
             def rp(**kw):
@@ -463,7 +777,7 @@ def _worlds():
             kw = {"rotational_frequency": vals["rf"]} if rf else {}
             if neutral != "none":
                 kw[neutral] = vals[neutral]
-            roll = pc.Roll(groove=groove(), nominal_radius=vals["R"], **kw)
+            roll = _tmpl(vals, pc.Roll, {"groove": groove()}, dict(nominal_radius=vals["R"], **kw))
             if cls_name == "TwoRollPass":
                 return pc.TwoRollPass(roll=roll, gap=2e-3, entry_point=-vals["length"], **pass_kw, **sup)
             return pc.ThreeRollPass(roll=roll, inscribed_circle_diameter=22e-3, entry_point=-vals["length"], **pass_kw, **sup)
@@ -523,7 +837,7 @@ def _worlds():
                    lambda sup, vals: (pc.Roll(groove=_groove(pc), **sup), []), lambda o: set(), rad_rules, rad_rel))
 
     def mk_pass_roll(sup, vals, roll_kw=None, pass_kw=None):
-        roll = pc.Roll(groove=_groove(pc), **(roll_kw or {}), **sup)
+        roll = _tmpl(vals, pc.Roll, {"groove": _groove(pc)}, dict(**(roll_kw or {}), **sup))
         rp = pc.TwoRollPass(roll=roll, gap=2e-3, **(pass_kw or {}))
         return rp.roll, [rp]
     W.append(World("PassRoll/radius", "PassRoll", "radius", rad_values, mk_pass_roll, lambda o: set(), rad_rules, rad_rel))
@@ -621,11 +935,13 @@ def _worlds():
 
     # ---- target width / filling ratio / cross-section area / its filling ratio -------------------------------------------
     def mk_target(cls_name):
-        def bare(**sup):
+        def bare(vals=None, **sup):
             if cls_name == "TwoRollPass":
-                return pc.TwoRollPass(roll=pc.Roll(groove=_groove(pc), nominal_radius=0.16), gap=2e-3, **sup)
+                return pc.TwoRollPass(roll=_tmpl(vals, pc.Roll, {"groove": _groove(pc)}, {"nominal_radius": 0.16}),
+                                      gap=2e-3, **sup)
             g3 = pc.RoundGroove(r1=3e-3, r2=12.5e-3, depth=5e-3, pad_angle=30)
-            return pc.ThreeRollPass(roll=pc.Roll(groove=g3, nominal_radius=0.16), inscribed_circle_diameter=22e-3, **sup)
+            return pc.ThreeRollPass(roll=_tmpl(vals, pc.Roll, {"groove": g3}, {"nominal_radius": 0.16}),
+                                    inscribed_circle_diameter=22e-3, **sup)
         ocs = helpers.out_cross_section if cls_name == "TwoRollPass" else helpers.out_cross_section3
 
         def values(rng, aux=None):
@@ -655,7 +971,7 @@ def _worlds():
                  ("target_cross_section_area", ["target_cross_section_filling_ratio"]),
                  ("target_cross_section_filling_ratio", ["target_cross_section_area"]),
                  ("target_cross_section_area", ["target_width"])]
-        return World(f"{cls_name}/target", cls_name, "target", values, lambda sup, vals: (bare(**sup), []),
+        return World(f"{cls_name}/target", cls_name, "target", values, lambda sup, vals: (bare(vals, **sup), []),
                      lambda o: set(), rules, rel)
     W += [mk_target("TwoRollPass"), mk_target("ThreeRollPass")]
     return W
@@ -878,7 +1194,9 @@ def _pre_reads(vals):
 def _run_real(world, sup_names, order, vals, funcs):
     """reads: the side quantity of a "read-first" scenario first, then the members in `order`"""
     sup = {m: vals[m] for m in sup_names}
+    _LAST_TMPL.clear()
     obj, keep = world.build(sup, vals)
+    keep = keep + [dict(_LAST_TMPL)]          # what the template of this object went through (template-history scenarios)
     _CALLS["obj"], _CALLS["funcs"] = obj, set(funcs.values())
     reads = []
     for m in _pre_reads(vals) + list(order):
@@ -910,7 +1228,9 @@ def _close(a, b, rtol=RTOL):
 
 def _case_replay(world, sup_names, order, vals):
     rp = {"world": world.name, "class": CLASSES[world.cls][0], "supplied": {m: vals[m] for m in sup_names},
-          "read_order": list(order), "values": vals,
+          "read_order": list(order),
+          "values": {k: ({a: b for a, b in v.items() if a not in ("ops", "probe", "assigned")} if k in ("@hist", "@form") else v)
+                     for k, v in vals.items()},
           "how": "driver.props.c16: w = [w for w in _worlds() if w.name == world][0]; obj, keep = w.build(supplied, values); "
                  "[getattr(obj, m) for m in read_order]"}
     aux = vals.get("@aux")
@@ -923,12 +1243,35 @@ def _case_replay(world, sup_names, order, vals):
                     f"{aux['name'].split('.')[-1]}=None): by Hook.__get__ that is 'not supplied'",
         }[aux["mode"]]
         rp["how"] += "  -- w.build puts values['@aux'] on the object; a 'read-first' quantity is read before read_order"
+    form = vals.get("@form")
+    if form:
+        rp["supplied_as"] = (f"{form['name']}" + (" (a form of its own for every entry, drawn from seed)" if form["name"] == "mixed" else "")
+                             + {"members": ": the supplied members are given in this form instead of as numbers",
+                                "all": ": every float valued explicit hook entry of the object and of the hook hosts linked to "
+                                       "it (roll, roll_pass, in_profile) is given in this form instead of as a number"}[form["scope"]])
+        rp["supplied_as_each"] = dict(form.get("assigned", {}))
+        rp["how"] += "  -- w.build replaces the numbers by callables (driver.props.c16.FORMS[name][1](value, hook name))"
+    hist = vals.get("@hist")
+    if hist:
+        rp["history"] = {"site": hist["site"], "mode": hist["mode"], "ops": hist.get("ops", [])}
+        rp["how"] += ("  -- w.build lets every template object (the Roll handed to the pass, the profile handed on) go through "
+                      "values['@hist'] before the copy site sees it" if hist["site"] == "template" else
+                      "  -- w.build deep-copies the object as values['@hist'] says")
     return rp
 
 
 def _side_tag(vals):
+    if vals.get("@form"):
+        return "/callable"
+    if vals.get("@hist"):
+        return "/template-history" if vals["@hist"]["site"] == "template" else "/copied"
     aux = vals.get("@aux")
     return "" if not aux else {"read-first": "/side-read", "none": "/given-none"}.get(aux["mode"], "/side-value")
+
+
+def _plain_vals(vals):
+    """the values of the plain scenario a variant is compared with"""
+    return {k: v for k, v in vals.items() if k not in ("@aux", "@form", "@hist")}
 
 
 def _scenario(ctx, world, vals, funcs, tables, lines, pending, only=None, n_orders=None, record=None, reference=None):
@@ -939,10 +1282,20 @@ def _scenario(ctx, world, vals, funcs, tables, lines, pending, only=None, n_orde
     members = world.members
     hooks = CLASSES[world.cls][2]
     aux = vals.get("@aux")
+    form, hist = vals.get("@form"), vals.get("@hist")
     tag = _side_tag(vals)
     pre = _pre_reads(vals)
     side = "" if not aux else f" [{aux['name']}" + {"read-first": " read first]", "none": " given as None]"}.get(
         aux["mode"], f"={aux['value']} {aux['mode']}]")
+    if form:
+        side = f" [{'supplied members' if form['scope'] == 'members' else 'all explicit values'} given as {form['name']}]"
+    if hist:
+        side = {"template": f" [built from a template with a history ({hist['mode']})]",
+                "deepcopy": {"fresh": " [deep copy of the never-read object]", "read": " [deep copy of the object after reads]",
+                             "isolated": " [original, after a deep copy of it was re-supplied and read]"}.get(hist["mode"], "")
+                }[hist["site"]]
+    variant = ([aux["name"], aux["mode"]] if aux else []) + ([form["name"], form["scope"], form.get("seed")] if form else []) \
+        + ([hist["site"], hist["mode"], hist["seed"]] if hist else [])
     linked = bool(aux) and "." in aux["name"]
     ext_paths = _paths(tables[world.cls], hooks)[0]
     # the interpreter knows the class tables of ONE instance only: a hook function of a subclass on a modelled hook, the
@@ -951,6 +1304,8 @@ def _scenario(ctx, world, vals, funcs, tables, lines, pending, only=None, n_orde
         (aux["mode"] == "hook" and aux["name"] in hooks)
         or (aux["mode"] == "read-first" and aux["name"] not in hooks and aux["name"] not in ext_paths)
         or (aux["mode"] == "none" and linked)))
+    # a deep copy of an object that has been read is not a fresh object (its cache is copied): implementation only
+    use_model0 = use_model0 and not (hist and hist["site"] == "deepcopy" and hist["mode"] == "read")
     all_orders = list(itertools.permutations(members))
     for k in range(len(members) + 1):
         for sup_names in itertools.combinations(members, k):
@@ -976,9 +1331,11 @@ def _scenario(ctx, world, vals, funcs, tables, lines, pending, only=None, n_orde
             if use_model:
                 ext, env = _measure_ext(pc, world.cls, tables[world.cls], twin, funcs[world.cls])
                 for h in pre_set:
-                    v = twin.__dict__[h]
-                    if isinstance(v, (int, float)):
-                        env[h] = float(v)
+                    v = _number(twin, h)              # (a callable stands for the number it returns)
+                    if v is not None:
+                        env[h] = v
+            calls = [(h, twin.__dict__["_c16_forms"][h][0]) for h in pre_set
+                     if callable(twin.__dict__[h]) and h in twin.__dict__.get("_c16_forms", {})]
             if only is not None:
                 orders = [tuple(o) for o in only[1]]
             elif n_orders is not None and n_orders < len(all_orders):
@@ -992,12 +1349,16 @@ def _scenario(ctx, world, vals, funcs, tables, lines, pending, only=None, n_orde
                 reads = reads_all[len(pre):]
                 got = {m: v for (m, k_, v, dt, msg, nc) in reads if k_ == "V"}
                 derived = [m for m in got if m not in sup_names]
-                ctx.case([world.name, list(sup_names), list(order)] + ([aux["name"], aux["mode"]] if aux else []),
+                ctx.case([world.name, list(sup_names), list(order)] + variant,
                          nontrivial=bool(derived) and len(sup_names) < len(members))
                 ctx.count("group:" + world.group)
                 ctx.count(f"supplied:{len(sup_names)}/{len(members)}")
                 if aux:
                     ctx.count("side:" + aux["mode"])
+                if form:
+                    ctx.count("form:" + form["name"] + "/" + form["scope"])
+                if hist:
+                    ctx.count("history:" + hist["site"] + "/" + hist["mode"])
                 rp = _case_replay(world, sup_names, order, vals)
                 for (m, k_, v, dt, msg, nc) in reads:
                     per_member[m].append((order, k_, v))
@@ -1018,7 +1379,19 @@ def _scenario(ctx, world, vals, funcs, tables, lines, pending, only=None, n_orde
                         if m not in expect:
                             ctx.violation(f"{world.group}:invented{tag}", f"{world.name}{side}: {m} reads {v} although only "
                                           f"{sorted(known)} is known", rp)
-                for (rel, lhs, rhs) in world.relations(obj, got):
+                try:
+                    rels = list(world.relations(obj, got))
+                except Exception as e:  # noqa - only what the implementation raises is an observation
+                    from ..core import _raised_in_impl
+                    if not _raised_in_impl(e):
+                        raise
+                    # the relations are evaluated with the quantities AS THE OBJECT REPORTS THEM (working radius, usable width,
+                    # usable cross-section, the roll's velocities): on an object whose members could be read they must be readable
+                    ctx.violation(f"{world.group}:relation-unreadable{tag}", f"{world.name}{side}: with "
+                                  f"{sorted(sup_names) or 'nothing'} supplied (order {list(order)}) the members read {got}, but a "
+                                  f"quantity their defining relation refers to cannot be read: {type(e).__name__}: {str(e)[:160]}", rp)
+                    rels = []
+                for (rel, lhs, rhs) in rels:
                     if not _close(lhs, rhs):
                         ctx.violation(f"{world.group}:inconsistent{tag}", f"{world.name}{side}: with "
                                       f"{sorted(sup_names) or 'nothing'} supplied (order {list(order)}): {rel} fails: "
@@ -1029,11 +1402,26 @@ def _scenario(ctx, world, vals, funcs, tables, lines, pending, only=None, n_orde
                     first_got = (got, obj, keep, order)
                 if use_model:
                     set_names = pre_set
-                    lines.append("run %s ext=%s set=%s order=%s env=%s fuel=%d none=%s" % (
+                    env_l, extra, more = dict(env), None, ""
+                    tm = keep[-1]
+                    if hist and hist["site"] == "template" and hist.get("model") and tm and tm["what"] == "Roll" \
+                            and world.cls == "PassRoll":
+                        # the template's history runs in the interpreter too (class Roll), the copy site is the generated one
+                        text, tenv = _measure_ext(pc, "Roll", tables["Roll"], tm["obj"], funcs["Roll"])
+                        tenv.update(tm["initial"])
+                        if hist["mode"] != "read":
+                            env_l.update({n + "@old": x for n, x in tm["initial"].items()})
+                        more = " tmpl=Roll text=%s tset=%s hist=%s tenv=%s" % (
+                            ",".join(f"{p}/{s}" for (p, s) in text) or "-", ",".join(tm["initial_names"]) or "-",
+                            ",".join(f"{k}:{n}" for (k, n) in tm["ops"]) or "-",
+                            ",".join(f"{n}={stub.bits(x)}" for n, x in tenv.items()) or "-")
+                        extra = {"treads": [(n, r[0], (float(r[1]) if r[0] == "V" else _kind(r[1]))) for (n, r) in tm["reads"]],
+                                 "set": sorted(n for n in obj.__dict__ if not n.startswith("_") and n in hooks)}
+                    lines.append("run %s ext=%s set=%s order=%s env=%s fuel=%d none=%s call=%s%s" % (
                         world.cls, ",".join(f"{p}/{s}" for (p, s) in ext) or "-", ",".join(set_names) or "-",
-                        ",".join(pre + list(order)), ",".join(f"{n}={stub.bits(x)}" for n, x in env.items()) or "-", FUEL,
-                        ",".join(none_set) or "-"))
-                    pending.append((rp, reads_all, cache))
+                        ",".join(pre + list(order)), ",".join(f"{n}={stub.bits(x)}" for n, x in env_l.items()) or "-", FUEL,
+                        ",".join(none_set) or "-", ",".join(f"{n}:{k}" for (n, k) in calls) or "-", more))
+                    pending.append((rp, reads_all, cache, extra))
             # order independence
             for m in members:
                 obs = per_member[m]
@@ -1056,13 +1444,19 @@ def _scenario(ctx, world, vals, funcs, tables, lines, pending, only=None, n_orde
                 if ref is not None:
                     for (o, k_, v) in obs:
                         if not ((k_ == ref[1]) and (v == ref[2] if k_ == "E" else _close(v, ref[2]))):
-                            none = aux["mode"] == "none"
-                            ctx.violation(f"{world.group}:{'none-is-not-absent' if none else 'order-dependent'}{tag}",
+                            kind, unless = (
+                                ("form-dependent", "the same values are supplied as plain numbers") if form else
+                                ("history-dependent", "the object is built from a template that was created with these "
+                                                      "explicit values and never touched") if hist and hist["site"] == "template" else
+                                ("copy-differs", "the object is built directly with these explicit values") if hist else
+                                ("none-is-not-absent", f"{aux['name']} is not mentioned at all") if aux["mode"] == "none" else
+                                ("order-dependent", f"{aux['name']} has not been read before"))
+                            ctx.violation(f"{world.group}:{kind}{tag}",
                                           f"{world.name}{side}: with "
                                           f"{sorted(sup_names) or 'nothing'} supplied {m} reads "
                                           f"{v if k_ == 'V' else 'Error(' + v + ')'} in order {list(o)}, but "
                                           f"{ref[2] if ref[1] == 'V' else 'Error(' + ref[2] + ')'} (order {list(ref[0])}) when "
-                                          f"{aux['name']} " + ("is not mentioned at all" if none else "has not been read before"),
+                                          + unless,
                                           dict(_case_replay(world, sup_names, o, vals), reference_order=list(ref[0]),
                                                reference_without_side_read=True))
                             break
@@ -1110,9 +1504,9 @@ def _compare(ctx, lines, pending):
         ctx.disagreement(f"model driver answered {len(out)} lines for {len(lines)} scenarios", {"first": lines[:2]})
         return
     mx_steps = mx_depth = 0
-    for line, ans, (rp, reads, cache) in zip(lines, out, pending):
+    for line, ans, (rp, reads, cache, extra) in zip(lines, out, pending):
         parts = ans.split("|")
-        if len(parts) != 3:
+        if len(parts) != (5 if extra else 3):
             ctx.disagreement(f"model driver: {ans[:80]}", {"line": line, **rp})
             continue
         mreads = [r for r in parts[0].split(";") if r]
@@ -1136,6 +1530,24 @@ def _compare(ctx, lines, pending):
             ok, why = False, f"names in __cache__: model {mcache}, implementation {cache}"
         if ok and parts[2] != "active=":
             ok, why = False, f"model leaves marks {parts[2]}"
+        if ok and extra:
+            # the object was built from a template with a history: the names the model's copy site puts into the copy's
+            # `__dict__` and what the history's reads gave on the template
+            mset = sorted(x for x in parts[3][len("set="):].split(",") if x)
+            if mset != extra["set"]:
+                ok, why = False, f"explicit names of the copy: model {mset}, implementation {extra['set']}"
+            mt = [r for r in parts[4][len("treads="):].split(";") if r]
+            if ok and len(mt) != len(extra["treads"]):
+                ok, why = False, f"template history: model {len(mt)} reads, implementation {len(extra['treads'])}"
+            for mr, (n, k_, v) in zip(mt, extra["treads"]):
+                if not ok:
+                    break
+                res = mr.split("=", 1)[1].rsplit(":", 3)[0]
+                if res.startswith("V"):
+                    if not (k_ == "V" and stub.close(stub.unbits(res[1:]), v, rtol=1e-10)):
+                        ok, why = False, f"template read {n}: model {stub.unbits(res[1:])}, implementation {v}"
+                elif not (k_ == "E" and res == "E" + v):
+                    ok, why = False, f"template read {n}: model {res}, implementation {v}"
         if ok:
             ctx.validated()
         else:
@@ -1219,6 +1631,127 @@ def _side_variants(ctx, world, vals, seed, plain, tables):
     return out
 
 
+
+_FORM_CYCLE = []
+_HIST_NAMES = {}
+
+
+def _form_variants(ctx, world, vals, plain):
+    """the scenarios of one world in which values are supplied as callables: [(values, orders per subset, reference)].
+    Two (thorough tier: three, per repetition) forms per world for the supplied members - the forms are dealt round robin over
+    the worlds, so every form is used on several worlds of every run -, one "all explicit values" scenario in one form and
+    one with a form of its own for every entry."""
+    picked = []
+    for _ in range(2 if ctx.tier == "quick" else 3):
+        if not _FORM_CYCLE:
+            _FORM_CYCLE.extend(ctx.rng.sample(sorted(FORMS), len(FORMS)))
+        picked.append(_FORM_CYCLE.pop())
+    few = len(world.members) <= 2
+    out = []
+    for name in picked:
+        v2 = dict(vals)
+        v2["@form"] = {"name": name, "scope": "members", "seed": 0}
+        out.append((v2, None if few else 1, plain))
+    for name in (ctx.rng.choice(sorted(FORMS)), "mixed"):
+        v2 = dict(vals)
+        v2["@form"] = {"name": name, "scope": "all", "seed": ctx.rng.getrandbits(32)}
+        out.append((v2, None if few else 1, plain))
+    return out
+
+
+def _history_names(world, vals):
+    """per template kind of the world ({what: ([names to read / supply], {name: another value})}) - found by a probe build - and
+    the names to read on the object itself before a deep copy"""
+    if world.name not in _HIST_NAMES:
+        probe = []
+        v2 = dict(vals)
+        v2["@hist"] = {"site": "template", "probe": probe}
+        obj, keep = world.build({m: vals[m] for m in world.members}, v2)
+        modelled = ALL_MEMBERS | {h for c in CLASSES.values() for h in c[2]}
+        per = {}
+        for (what, t, kw) in probe:
+            names, alt = [], {}
+            for n in _hook_names(t):
+                r = _safe(lambda: getattr(t, n))
+                if n in modelled or n in kw or _is_float(r):
+                    names.append(n)
+                    x = vals.get(n) if isinstance(vals.get(n), float) else (float(r[1]) if _is_float(r) else None)
+                    if x:
+                        alt[n] = x
+            per[what] = (names, alt)
+        own = [n for n in _hook_names(obj) if n in modelled or _is_float(_safe(lambda: getattr(obj, n)))]
+        _HIST_NAMES[world.name] = (per, own)
+    return _HIST_NAMES[world.name]
+
+
+def _history_variants(ctx, world, vals, plain):
+    """the scenarios of one world whose object has a HISTORY: built from a template that was read / edited before (every
+    template kind the builder uses), or a deep copy"""
+    per, own = _history_names(world, vals)
+    few = len(world.members) <= 2
+    out = []
+    for what, (names, alt) in per.items():
+        model_names = [n for n in names if n in CLASSES["PassRoll"][2]]
+        for (mode, restricted) in (("read-edit", True), ("read-edit", False), ("read", False)):
+            use = model_names if (restricted and what == "Roll" and model_names) else names
+            if not use:
+                continue
+            f = ctx.rng.uniform(1.15, 1.6)
+            v2 = dict(vals)
+            v2["@hist"] = {"site": "template", "seed": ctx.rng.getrandbits(32), "names": use, "mode": mode,
+                           "alt": {n: alt[n] * (f if ctx.rng.random() < 0.5 else 1 / f) for n in use if n in alt},
+                           "model": use is model_names, "via_solve": ctx.rng.random() < 0.5}
+            out.append((v2, None if few else 1, plain))
+    probe_obj, keep = world.build({}, vals)
+    if _copy_of(probe_obj, keep) is not None and own:
+        for mode in ("fresh", "read", "isolated"):
+            if not ctx.extended and mode != "read" and ctx.rng.random() < 0.5:
+                continue
+            v2 = dict(vals)
+            v2["@hist"] = {"site": "deepcopy", "seed": ctx.rng.getrandbits(32), "names": own, "mode": mode}
+            out.append((v2, None if few else 1, plain))
+    return out
+
+
+def _check_copy_sites(ctx, pc):
+    """(K for the generated `copy_*`) the explicit names a copy site puts into the fresh object, predicted from the generated
+    sources, against the real sites - on a template that carries explicit values, a cached value and a re-supplied one"""
+    found = ctx.notes.get("hook_system") or c16_template.lean_text(gen.REPO)[2]
+
+    def predict(srcs, t):
+        d = {}
+        for s_ in srcs:
+            if s_ == "dict":
+                d.update({k: "dict" for k in t.__dict__ if not k.startswith("_")})
+            elif s_ == "cache":
+                d.update({k: "cache" for k in t.__cache__})
+            else:
+                return None
+        return d
+    g = _groove(pc)
+    t = pc.Roll(groove=g, nominal_radius=0.2, rotational_frequency=1.0)
+    for n in ("nominal_diameter", "surface_velocity", "working_velocity", "working_radius"):
+        getattr(t, n)
+    t.surface_velocity = 3.0
+    rp = pc.TwoRollPass(roll=t, gap=2e-3)
+    p = pc.Profile.round(radius=0.01, velocity=1.0)
+    for n in _hook_names(p):
+        _safe(lambda: getattr(p, n))
+    u = pc.Transport(duration=1.0)
+    ip = pc.Transport.InProfile(u, p)
+    for (name, tmpl_obj, cp) in (("copy_PassRoll", t, rp.roll), ("copy_UnitProfile", p, ip)):
+        want = predict(found.get(name, ["?"]), tmpl_obj)
+        got = sorted(k for k in cp.__dict__ if not k.startswith("_"))
+        if want is None:
+            continue                                   # reported as a translator gap already
+        if sorted(want) != got:
+            ctx.disagreement(f"{name}: the generated sources {found[name]} give the explicit names {sorted(want)}, the copy "
+                             f"site builds an object with {got}", {"site": name, "template_dict": sorted(
+                                 k for k in tmpl_obj.__dict__ if not k.startswith('_')), "template_cache": sorted(tmpl_obj.__cache__)})
+        else:
+            ctx.validated()
+
+
 def run(ctx):
     pc = _core()
     tables = getattr(ctx, "tables", None) or _tables()[1]
@@ -1233,14 +1766,17 @@ def run(ctx):
                 vals = w.values(random.Random(seed), None)
                 plain = {}
                 _scenario(ctx, w, vals, funcs, tables, lines, pending, record=plain)
-                for (vals2, n_orders, reference) in _side_variants(ctx, w, vals, seed, plain, tables):
+                # (forms and histories: in every second repetition - thorough tier 6 of 12 - to stay inside the time budget)
+                more = (_form_variants(ctx, w, vals, plain) + _history_variants(ctx, w, vals, plain)) if rep % 2 == 0 else []
+                for (vals2, n_orders, reference) in _side_variants(ctx, w, vals, seed, plain, tables) + more:
                     _scenario(ctx, w, vals2, funcs, tables, lines, pending, n_orders=n_orders, reference=reference)
         _linked_instances(ctx)
+        _check_copy_sites(ctx, pc)
     if ctx.model_available and lines:
         _compare(ctx, lines, pending)
     # the driver reports the first few distinct keys: put one key per kind of failure first
     prio = ["wrong-error", "linked-instances", "slow-failure", "invented", "supplied-changed", "marks-left", "inconsistent",
-            "order-dependent", "roundtrip", "underivable"]
+            "order-dependent", "roundtrip", "underivable", "history-dependent", "copy-differs", "form-dependent"]
     def rank(v):
         kind = v[0].split(":")[-1].split("/")[0]
         return (prio.index(kind) if kind in prio else 99, v[0])
@@ -1261,7 +1797,7 @@ def replay(ctx, data):
         if r.get("reference_without_side_read"):
             # the members as they read when the side quantity has not been read before, then with it read first
             plain = {}
-            _scenario(ctx, w, {k: v for k, v in vals.items() if k != "@aux"}, funcs, tables, lines, pending,
+            _scenario(ctx, w, _plain_vals(vals), funcs, tables, lines, pending,
                       only=(sup, [r["reference_order"]]), record=plain)
             _scenario(ctx, w, vals, funcs, tables, lines, pending, only=(sup, [r["read_order"]]), reference=plain)
         else:
